@@ -1,10 +1,35 @@
 /- Property C03: the property theorems (and nothing else). -/
-import Frugal.Proofs.WireRT
+import Frugal.Proofs.DecodeRefine
+import Frugal.Proofs.ReaderProps
 import Frugal.Props.Instances
 namespace Frugal.C03
 open Frugal
-/-- the reference reader accepts every well-formed message in one pass and consumes exactly it -/
-theorem reference_reader_total (v : TVal) (fuel : Nat) (r : Bytes) (hw : wf v = true) (hd : depth v < fuel) :
+
+/-- the reference parser accepts every well-formed message in one pass and consumes exactly it -/
+theorem reference_parser_total (v : TVal) (fuel : Nat) (r : Bytes) (hw : wf v = true) (hd : depth v < fuel) :
     parse fuel v.tag (ser v ++ r) = some (v, r) := parse_ser v fuel r hw hd
+
+/-- For every schema the tag language accepts, every well-formed struct message — fields in any
+    order, duplicates, unknown fields of any type at any level, written under any other schema — and
+    arbitrary trailing bytes and destination contents: `DecodeObject` returns exactly what the
+    reference reader (lean/Frugal/Reader.lean) returns, and the number of bytes up to and including
+    the top-level STOP. -/
+theorem decoder_is_reference_reader (S : Schema) (hS : S.ok = true) (sid : Nat) (fs : List (Nat × TVal))
+    (trailing : Bytes) (dest : Val) (hw : wfFields fs = true) :
+    decodeM Generated.params S sid (ser (.strct fs) ++ trailing) dest =
+      (readMessage Generated.params S sid fs trailing.length dest).mapv (·, (ser (.strct fs)).length) :=
+  decodeM_refines Instances.params_valid S hS sid fs trailing dest hw
+
+/-- the reference reader leaves every destination field the message does not carry untouched -/
+theorem absent_fields_untouched (S : Schema) (total fuel : Nat) (sd : SDesc) (fs : List (Nat × TVal))
+    (tail : Nat) (vs : List Val) (st' : LoopSt)
+    (h : readFields Generated.params S total fuel sd fs tail { fs := vs } = .ok st') (j : Nat)
+    (hj : j ∉ writtenIxs sd fs) : st'.fs.getD j default = vs.getD j default :=
+  untouched _ S total fuel sd fs tail vs st' h j hj
+
+/-- the count checks never reject a well-formed message -/
 theorem minWire_sound : Generated.params.validMinWire = true := Instances.valid_minWire
+
+/-- non-vacuity: a message with an unknown field, a duplicate and a nested list -/
+example : wfFields [(1, .i32 7), (9, .list 11 [.str [65]]), (1, .i32 8)] = true := by decide
 end Frugal.C03
